@@ -53,6 +53,7 @@ type Config struct {
 	MaxDepth          int      // max call depth
 	MaxInstr          int64    // instruction budget per path
 	AdversarialTime   bool     // timers may fire at any scheduling point
+	Stalls            int      // number of "slow goroutine" decisions per path (see schedPoint)
 	FPConvAMD64       bool     // float->int64 out of range gives 0x8000000000000000
 	GuardedMutexPkgs  []string // mutexes allocated in these packages are assumed (and checked) to be guarded by another held lock
 	MapOrders         string   // "first" | "rot" | "all"
@@ -80,7 +81,9 @@ type interpreter struct {
 	sizes              types.Sizes
 	cfg                *Config
 
+	syncMaps    map[*value]*syncMapState
 	randCounter int
+	stalls      int
 	strChars map[string][]string // symbolic strings decomposed into named code points (natives_str.go)
 
 	// path control
